@@ -57,8 +57,8 @@ ASYNC_VARIANTS = ("coro", "agen")
 #  Sa/Aa enter/exit are aliases of methods with other names (`__exit__ = close`)
 #  Sd/Ad enter/exit wrapped by a decorator (functools.wraps; the running frame is `wrapper(self, ...)`)
 #  Sm/Am enter/exit inherited from mixin base classes
-#  Sv/Av wrapped by a decorator whose wrapper takes (*args, **kwargs)   [known discrepancy, only
-#        used by leg_known: stackscope cannot recover obj of the exiting manager]
+#  Sv/Av wrapped by a decorator whose wrapper takes (*args, **kwargs): obj of the exiting manager
+#        comes from the wrapper frame's varargs (fixed in /repo b0dc696; a recurrence is a violation)
 SYNC_KINDS = ("S", "Sw", "Sr", "Sq", "G", "Gw", "G2", "Sa", "Sd", "Sm", "Sv")
 ASYNC_KINDS = ("A", "Aw", "Ae", "Ax", "A0", "Ar", "AG", "AGw", "AG2", "Aa", "Ad", "Am", "Av")
 # none / local name / attribute / subscript / name, expression over two lines / name, suspension inside the expression
@@ -126,9 +126,9 @@ def _gen_items(rng, variant, is_async):
     items = []
     for _ in range(n):
         if is_async:
-            kind = rng.choice(("A", "A", "A", "Aw", "Ae", "Ax", "A0", "Ar", "AG", "AGw", "AG2", "Aa", "Ad", "Am"))
+            kind = rng.choice(("A", "A", "A", "Aw", "Ae", "Ax", "A0", "Ar", "AG", "AGw", "AG2", "Aa", "Ad", "Am", "Av"))
         else:
-            kind = rng.choice(("S", "S", "S", "Sw", "Sr", "Sq", "G", "Gw", "G2", "Sa", "Sd", "Sm"))
+            kind = rng.choice(("S", "S", "S", "Sw", "Sr", "Sq", "G", "Gw", "G2", "Sa", "Sd", "Sm", "Sv"))
         items.append([kind, rng.choice(("n", "n", "n", "v", "v", "v", "v", "a", "s", "m", "y"))])
     return items
 
@@ -279,11 +279,11 @@ MATRIX_EXITS = ("fall", "ret_c", "ret_v", "break", "continue", "raise_out", "rai
 
 def _matrix_items(variant):
     its = [[["S", "v"]], [["Sw", "n"]], [["G", "a"]], [["S", "n"], ["Sw", "v"]], [["G2", "v"]],
-           [["Sq", "n"]], [["S", "v"], ["S", "y"]], [["Sa", "v"], ["Sd", "n"]], [["Sm", "v"]]]
+           [["Sq", "n"]], [["S", "v"], ["S", "y"]], [["Sa", "v"], ["Sd", "n"]], [["Sm", "v"], ["Sv", "n"]]]
     if variant in ASYNC_VARIANTS:
         its += [[["A", "v"]], [["Aw", "n"]], [["AG", "v"]], [["A", "n"], ["A0", "v"]],
                 [["Ax", "s"]], [["AG2", "n"]], [["AGw", "v"], ["Ae", "n"]], [["A", "n"], ["A", "y"]],
-                [["Aa", "v"], ["Ad", "n"]], [["Am", "s"]]]
+                [["Aa", "v"], ["Ad", "n"]], [["Am", "s"], ["Av", "n"]]]
     return its
 
 
@@ -655,6 +655,7 @@ class Run:
         self.on_probe = on_probe
         self.on_suspend = on_suspend
         self.sentinels = []
+        self.alive_log = []      # filled by observers that track object lifetimes (purity)
         self.mgr_refs = []
         self.aborted = False
         self.main_obj = None
@@ -1815,9 +1816,9 @@ def special_programs(variants=VARIANTS):
     flagsets = ({"doc": True, "consts": 260}, {"closure": 1}, {"closure": 2},
                 {"closure": 2, "doc": True, "consts": 260})
     for variant in variants:
-        itemsets = [[["S", "m"]], [["Sw", "v"], ["G", "m"]]]
+        itemsets = [[["S", "m"]], [["Sw", "v"], ["G", "m"]], [["Sv", "v"]]]
         if variant in ASYNC_VARIANTS:
-            itemsets += [[["A", "m"]], [["A", "n"], ["AG", "m"]], [["Aw", "v"]]]
+            itemsets += [[["A", "m"]], [["A", "n"], ["AG", "m"]], [["Aw", "v"]], [["Av", "v"]]]
         for fl in flagsets:
             for items in itemsets:
                 is_async = items[0][0] in ASYNC_KINDS
@@ -2157,12 +2158,12 @@ def fault_leg(col, progs, tier, seed):
         except BaseException:
             return
         counts = dict(state["n"])
-        ref = ll._contexts_active_by_referents(frame, obj)
-        if ref and ref[-1].is_exiting and nxt is not None:
-            import inspect
-            args = inspect.getargvalues(nxt)
-            if args.args:
-                ref[-1].obj = args.locals[args.args[0]]
+        # the referents-mode answer = what the same call returns with trickery switched off
+        ll.set_trickery_enabled(False)
+        try:
+            ref = ll.contexts_active_in_frame(frame, obj, nxt)
+        finally:
+            ll.set_trickery_enabled(True)
         ref_sig = ctx_sig(ref)
         for name in patched:
             n = counts.get(name, 0)
@@ -2256,43 +2257,30 @@ def leg_referents(tier="quick", seed=0, variants=VARIANTS, progs=None, shard=Non
 
 # ---- recorded discrepancies (sig-tagged), kept out of the main legs ---------------------------
 KNOWN_SIGS = {
-    "exit_wrapper_varargs_obj_none":
-        "the exiting manager's __exit__/__aexit__ is wrapped by a decorator whose wrapper is "
-        "`def wrapper(*args, **kwargs)`: the next inner frame has no named first argument, so "
-        "Context.obj of the is_exiting entry stays None (C01 suspended inside __aexit__, C02 "
-        "running inside/below __exit__)",
     "referents_alias_exit_name":
         "referents mode (C20): a manager whose exit method is an alias of a function with another "
         "name (`__exit__ = close`) is not reported although it is active; the fallback recognises "
-        "exit methods by __func__.__name__ (documented limitation of set_trickery_enabled(False))",
+        "exit methods by __func__.__name__ (documented limitation of set_trickery_enabled(False)); "
+        "known_findings.json: property C20, finding F21",
 }
 
 
 def known_programs(variants=VARIANTS):
     for variant in variants:
         a = variant in ASYNC_VARIANTS
-        k = "Av" if a else "Sv"
-        yield {"variant": variant, "family": "known", "tag": "varargs-wrapped exit",
-               "body": [["with", a, [["S" if not a else "A", "v"], [k, "v"]], [["susp"], ["probe"]]], ["susp"]]}
-        yield {"variant": variant, "family": "known", "tag": "varargs-wrapped exit, exception path",
-               "body": [["try", [["with", a, [[k, "n"]], [["susp"], ["raise", "E1"]]]], [["E1", [["susp"]]]], None, None]]}
         k = "Aa" if a else "Sa"
         yield {"variant": variant, "family": "known", "tag": "aliased exit",
                "body": [["with", a, [[k, "v"]], [["susp"], ["with", False, [["S", "n"]], [["susp"]]]]], ["susp"]]}
+        yield {"variant": variant, "family": "known", "tag": "aliased exit, exception path",
+               "body": [["try", [["with", a, [["S" if not a else "A", "n"], [k, "n"]], [["susp"], ["raise", "E1"]]]],
+                         [["E1", [["susp"]]]], None, None]]}
 
 
 def _known_sigger(what, R, prog, extra):
     kinds = set(k for st in _walk(prog.desc["body"]) if st[0] == "with" for k, _ in st[2])
-    got, exp = extra.get("got"), extra.get("expected")
-    if kinds & {"Sv", "Av"} and got is not None and exp is not None and len(got) == len(exp) and got and exp:
-        if got[:-1] == exp[:-1] and got[-1][1:] == exp[-1][1:] and got[-1][0] is None and exp[-1][2] \
-                and str(exp[-1][0]).startswith(("Sv@", "Av@")):
-            return "exit_wrapper_varargs_obj_none"
-    if kinds & {"Sv", "Av"} and "is_exiting entry has obj None although the exit frame is available" in what:
-        return "exit_wrapper_varargs_obj_none"
     if kinds & set(ALIAS_KINDS) and "(referents)" in what and ("missing" in what or "unexpected entry" in what):
         truth = extra.get("truth") or []
-        if any(str(t[0]).startswith(("Sa@", "Aa@")) for t in truth):
+        if any(str(t[0]).startswith(("Sa@", "Aa@")) and t[2] == "active" for t in truth):
             return "referents_alias_exit_name"
     return None
 
